@@ -16,6 +16,7 @@ func collect(r *run.Runner) *RunResult {
 		Faults:  w.Stats.Faults,
 		IO:      w.Stats.IOByKind,
 		SimNS:   w.Stats.SimAdvance,
+		ND:      r.ND,
 	}
 	for _, s := range r.StateAt {
 		res.StateHash = append(res.StateHash, s.Hash())
